@@ -317,5 +317,16 @@ def guard_regions(f, field=None):
                 releases.append(f.term_loc(b))
         start = Loc(t['target'], 0) if t['target'] is not None else None
         live = f.reachable_locs([start], blockers=releases) if start else set()
-        out.append({'loc': loc, 'field': fld, 'live': live, 'releases': releases, 'guard': g, 'aliases': aliases})
+        # 'live' is a may-set (some path from the lock reaches the location with the guard alive);
+        # 'held' is the must-set: locations that cannot be reached from the function entry, or from
+        # behind a release, without passing through this lock call again (so a lock taken on one
+        # branch only, `if c { None } else { Some(lock(..)) }`, holds nowhere after the join)
+        after = []
+        for rl in releases:
+            tt = f.at(rl)
+            if f.is_term(rl) and tt.get('target') is not None:
+                after.append(Loc(tt['target'], 0))
+        unlocked = f.reachable_locs([Loc(0, 0)] + after, blockers=[loc])
+        held = {l for l in live if l not in unlocked}
+        out.append({'loc': loc, 'field': fld, 'live': live, 'held': held, 'releases': releases, 'guard': g, 'aliases': aliases})
     return out
